@@ -106,6 +106,8 @@ def written_atoms(lf, bufname):
             for j, c in enumerate(content[1]):
                 pos = mk_lin(USIZE, *_addc(lo, j))
                 atoms.append(('cell', pos, c, wi))
+        elif content[0] == 'fill':
+            atoms.append(('fill', lo, n, content[1], wi))
         else:
             atoms.append(('copy', lo, n, content[1], wi))
     return atoms
@@ -116,10 +118,24 @@ def _addc(t, j):
     return c0 + j, ts
 
 
-def chain(know, atoms, length):
+def beyond(know, a, length):
+    """Is the written atom provably at or after offset `length`?"""
+    c0, ts = lin_of(a[1])
+    c1, t1 = lin_of(length)
+    d = dict(ts)
+    for l, c in t1.items():
+        d[l] = d.get(l, 0) - c
+    lo, hi = know.interval(c0 - c1, d)
+    return lo >= 0
+
+
+def chain(know, atoms, length, allow_beyond=False):
     """Order the written atoms as a gap-free, overlap-free chain from 0 to `length`.
+    With allow_beyond, writes provably at or after `length` are set aside (another property judges them).
     -> (ordered atoms, None) or (None, reason)."""
     remaining = list(atoms)
+    if allow_beyond:
+        remaining = [a for a in remaining if not beyond(know, a, length)]
     cursor = K(USIZE, 0)
     ordered = []
     guard = 0
@@ -302,7 +318,7 @@ def compare(know, ordered, items):
         else:
             name, lo, hi = it[1]
             if a[0] != 'copy':
-                out.append((show_term(simp(know, a[1])), show_item(know, it), 'a single cell %s' % show_term(simp(know, a[2]))))
+                out.append((show_term(simp(know, a[1])), show_item(know, it), ('a single cell %s' % show_term(simp(know, a[2]))) if a[0] == 'cell' else 'a filled region'))
                 ai += 1
             else:
                 (sbase, slo, shi) = a[3]
@@ -361,9 +377,10 @@ def pec_check(lf, know, ordered, bufname, length):
         return 'the PEC view ends at %s, expected %s (all bytes before the PEC)' % (show_term(simp(know, hi)), show_term(simp(know, want_hi)))
     # the writes covered by the PEC must be exactly the writes that make up the final content before it
     obj = lf.heap[bufname]
-    final_before = tuple(w for i, w in enumerate(obj[2]) if i != last[3])
+    final_before = tuple(w for i, w in enumerate(obj[2]) if i != last[3] and
+                         not (i > last[3] and beyond(know, ('w', w[0]), length)))
     if tuple(writes) != final_before:
-        if last[3] != len(obj[2]) - 1:
-            return 'bytes are written after the PEC was computed'
+        if any(i > last[3] and not beyond(know, ('w', w[0]), length) for i, w in enumerate(obj[2])):
+            return 'bytes of the packet are written after the PEC was computed'
         return 'the PEC does not cover the final content (%d writes covered, %d present)' % (len(writes), len(final_before))
     return None
